@@ -431,7 +431,9 @@ theorem fact_query_columns :
       ("credentialSubject.id", "credential.subject_id")] ∧
     Facts.C16.queryOps = ["= ?", "is not null", "LIKE ?", "LIKE ?"] ∧
     Facts.C16.queryJoins = ["inner join discovery_credential ON discovery_credential.presentation_id = discovery_presentation.id",
-      "inner join credential ON credential.id = discovery_credential.credential_id"] := by decide
+      "inner join credential ON credential.id = discovery_credential.credential_id"] ∧
+    Facts.C16.queryConditions = ["if strings.TrimSpace(value) == \"*\"", "if strings.HasPrefix(value, \"*\")", "if strings.HasSuffix(value, \"*\")",
+      "if column := propertyColumns[jsonPath]; column != \"\""] := by decide
 
 /-- a query only ever narrows the plain search: same order, nothing added -/
 theorem searchQ_sublist_search (s : Store) (now : Nat) (ix : Row → List CredIx) (cols : List (String × String)) (ci : Bool)
